@@ -129,7 +129,7 @@ func genC09(t *rapid.T, o tschema.GenOpts) C09Case {
 }
 
 var c09Part = evid.Part[C09Case]{
-	Prop: "C09", Name: "conformance", Quick: 6000, Thorough: 600000,
+	Prop: "C09", Name: "conformance", Quick: 6000, Thorough: 4000000,
 	Rule:  "schema × level (type | representation) × the data-model tree of a conforming value followed by 0-3 local mutations (drop / duplicate (same or other value) / rename entry, retype, swap, nullify, extra element, string tweak touching delimiters) × route (direct assembler calls, strict DAG-CBOR, relaxed DAG-CBOR which passes duplicates on, DAG-JSON text); oracle: independent conformance parser — accepted ⇔ conforms, no panic, and an accepted node reads as the denoted value at both levels; non-trivial = conforming with ≥3 values, or non-conforming with the tree at least two levels deep; distinct by the whole case",
 	Gen:   func(t *rapid.T) C09Case { return genC09(t, tschema.GenOpts{MaxTypes: 5}) },
 	Check: c09Check,
